@@ -657,7 +657,13 @@ func (u *U) callQuery(q qmethod, req reflect.Value) {
 		}
 		return nil
 	})
-	u.report(q.name, cls, pv, input, "")
+	extra := ""
+	if strings.Contains(q.name, "swap.Calculation") && !req.IsNil() {
+		if f := req.Elem().FieldByName("Route"); f.IsValid() && !f.IsNil() {
+			extra = "deep" // the request carried a route: a nil dereference is not the nil-route head
+		}
+	}
+	u.report(q.name, cls, pv, input, extra)
 }
 
 func (u *U) querySection(n int) {
